@@ -34,6 +34,12 @@ def run(tier, seed):
             rq = {'so': so, 'se': se, 'mo': mo, 'me': me, 'umask': rnd.choice([0o22, 0o27, 0o77, 0o0]), 'stdin': 'input-%d' % rnd.randint(0, 999),
                   'shell': rnd.choice(['/bin/sh', '/bin/sh', '/bin/bash'])}
             jobs.append((rq, v))
+    # a mailer that fails (sendmail exits 75 or 1 after taking the message): routing into the files, the journal and the removal of
+    # the temporary files do not depend on it
+    for (so, se, mo, me) in rows:
+        if not (mo or me): continue
+        for v in variants()[:3] + variants()[4:5]:
+            jobs.append(({'so': so, 'se': se, 'mo': mo, 'me': me, 'umask': 0o22, 'stdin': 'in', 'shell': '/bin/sh', 'mailrc': rnd.choice([75, 1, 69])}, v))
     # --no-run requests
     for (so, se, mo, me) in rows[::3]:
         jobs.append(({'so': so, 'se': se, 'mo': mo, 'me': me, 'umask': 0o22, 'stdin': 'x', 'norun': True}, dict(bursts=[(1, 1)], exitcode=0)))
